@@ -82,7 +82,7 @@ class ProjectGen:
         order: list[tuple[str, dict]] = []    # (file, macro) in creation order: callees first
         n_macro = 0
         body_cfg = Cfg(max_depth=2, max_stmts=3, switches=self.cfg.switches, loops=self.cfg.loops, pos_marks=(self.mode in ("marks", "nest_marks")),
-                       strings_nl=self.cfg.strings_nl)
+                       strings_nl=self.cfg.strings_nl, hdr_pos=getattr(self.cfg, "hdr_pos", 0.0))
         bg = MacroBodyGen(r, body_cfg)
         # libraries last-to-first so that callees exist
         for f in list(reversed(libs)) + [main]:
